@@ -265,18 +265,35 @@ class NF(object):
                           for m, c in items) or "0"
 
     def canon_rf(self, r):
+        """Canonical text of num/den:  monomial * (primitive num)/(primitive den) — the monomial contents of numerator and
+        denominator are pulled out separately and combined (prime atoms brought into [0,1) with a rational coefficient), so that
+        equal rational functions written with their monomial factors on different sides get the same text."""
         n, d = r
         if not n:
             return "0"
-        mc = mono_content([n, d])
-        if mc:
-            n, d = poly_div_mono(n, mc), poly_div_mono(d, mc)
+        cn = tuple((k, e) for k, e in mono_content([n]) if k[0] in "vp")
+        cd = tuple((k, e) for k, e in mono_content([d]) if k[0] in "vp")
+        if cn:
+            n = poly_div_mono(n, cn)
+        if cd:
+            d = poly_div_mono(d, cd)
+        m = mono_mul(cn, tuple((k, lf_scale(e, -1)) for k, e in cd))
+        coef = Q(1)
+        mm = []
+        for k, e in m:
+            if k[0] == "p":
+                cp = lf_constpart(e)
+                fl = cp.numerator // cp.denominator
+                coef *= Q(int(k[2:])) ** fl
+                e = lf_add(e, lf_const(-fl))
+            if e:
+                mm.append((k, e))
         lead = sorted(d.items(), key=lambda kv: repr(kv[0]))[0][1]
-        n = poly_scale(n, 1 / lead)
+        n = poly_scale(n, coef / lead)
         d = poly_scale(d, 1 / lead)
-        if d == POLY_ONE:
-            return self.canon_poly(n)
-        return "(%s)/(%s)" % (self.canon_poly(n), self.canon_poly(d))
+        ms = "*".join("%s^(%s)" % (k, lf_show(e)) for k, e in mm)
+        body = self.canon_poly(n) if d == POLY_ONE else "(%s)/(%s)" % (self.canon_poly(n), self.canon_poly(d))
+        return "%s*[%s]" % (ms, body) if ms else body
 
     # ---- atoms
     def atom(self, key, term):
